@@ -174,13 +174,14 @@ class TBRMMData:
       missing_geos = sorted(list(missing_geos))
       raise ValueError('Unassignable geo(s): ' + ', '.join(missing_geos))
 
+    geos_list = list(geos)  # A tuple would be taken as a (row, column) key.
     self.geo_assignments = self.geo_eligibility.get_eligible_assignments(
-        geos,
+        geos_list,
         indices=True)
 
     self._geo_index = geos
-    self._array = self.df.loc[geos].to_numpy()
-    self._array_geo_share = np.array(self.geo_share[geos])
+    self._array = self.df.loc[geos_list].to_numpy()
+    self._array_geo_share = np.array(self.geo_share[geos_list])
 
   def aggregate_time_series(self, geo_indices: GeoIndexSet) -> Vector:
     """Return the aggregate the time series over a set of chosen geos.
